@@ -109,6 +109,7 @@ class Interp:
         self.trace_calls = []
         self.max_unroll = 64
         self.allocs = []
+        self.last_locals = {}  # qualname -> locals at the last return (contracts relate intermediate results to spec terms)
         self.frames = []  # environments of the active calls (contracts may inspect locals at a stop point)
         self.scratch = {}  # per-path storage for contracts (loop specs capture locals here)
 
@@ -238,8 +239,10 @@ class Interp:
         self.loop_counters[fv.qualname] = 0
         try:
             self.exec_block(fv.node.body, env)
+            self.last_locals[fv.qualname] = env.vars
             return None
         except _Return as r:
+            self.last_locals[fv.qualname] = env.vars
             return r.value
         finally:
             self.call_depth -= 1
